@@ -500,8 +500,8 @@ def hooked_histories(ctx, rng, thorough):
         with open(path, encoding="utf-8") as handle:
             lines = [json.loads(line) for line in handle if line.strip()]
         os.unlink(path)
-        if not lines:
-            raise tlc.MachineryError("the tracing hook recorded nothing: is the guard honoured by /repo's working tree?")
+        if not lines:      # e.g. leaf orders without a common root order: no table is filled
+            continue
         events = []
         seen = set()
         budget = 2500 if thorough else 900
@@ -520,7 +520,7 @@ def hooked_histories(ctx, rng, thorough):
         sessions.append(events)
         ctx.nontrivial_extra += 1
     if not sessions:
-        return
+        raise tlc.MachineryError("the tracing hook recorded nothing in any run: is the guard honoured by /repo's working tree?")
     chunks, index = trace.split_sessions(sessions, 16)
     verdicts, stats = trace.validate("TraceDPEntry", chunks, {"StaleTagsBug": "FALSE"})
     ctx.states += stats["states"]
